@@ -234,6 +234,7 @@ def qr_selector_regression(ctx, rnd, n):
     numeric coupling matrix, which the cg-matrix layer ties to the exact model); regression of hunt2 C13 finding 2
     (/repo 5241796: float spins left round-off in the sympy QR, so no half-integer decay ever lost a coupling)."""
     import contextlib, io
+    import numpy as np
     from tf_pwa.amp import get_particle, get_decay
     for k in range(n):
         half = k % 2 == 0
@@ -255,7 +256,7 @@ def qr_selector_regression(ctx, rnd, n):
                 sel = d1.get_ls_list()
             M0 = np.array(d0.get_cg_matrix()).reshape(len(full), -1)
             M1 = np.array(d1.get_cg_matrix()).reshape(len(sel), -1)
-        except Exception:
+        except (ValueError, KeyError, AssertionError):  # no allowed coupling for this spin-parity assignment
             ctx.count("qr_selector_declined")
             continue
         ctx.evaluations += 1
